@@ -304,7 +304,7 @@ class PitRun:
                 name = views
             try:
                 before = len(self.face.out)
-                if e % 7 == 3 and (self.front == 'v2' or e % 4 != 2):
+                if e % 7 == 3 or (self.front == 'legacy' and e % 8 == 6):
                     # the other public way to express an Interest: the caller encodes it itself and hands over the wire,
                     # the final name and the parameters (express_raw_interest, both front-ends)
                     ip = kw.get('interest_param')
@@ -316,8 +316,10 @@ class PitRun:
                     raw, fname = enc.make_interest(name, ip, kw.get('app_param'), signer=kw.get('signer'), need_final_name=True)
                     if not self.face.running:
                         raise ndn_types.NetworkError('cannot send packet before connected')
-                    if self.front == 'v2':
-                        coro = self.app.express_raw_interest(fname, ip, raw, self.validator_for(e))
+                    if self.front == 'legacy' and e % 4 == 2:
+                        # no validator of its own: the application-wide data_validator is in force on this path too
+                        self.app.data_validator = self.app_wide_validator
+                        coro = self.with_entry(e, self.app.express_raw_interest(fname, ip, raw))
                     else:
                         coro = self.app.express_raw_interest(fname, ip, raw, self.validator_for(e))
                 elif self.front == 'v2':
